@@ -25,12 +25,27 @@ _real = {}
 REPO = None
 
 
+_STDLIB_WRAPPERS = ('pathlib', 'shutil', 'os', 'posixpath', 'genericpath', 'glob', 'tempfile', 'json', 'io', 'codecs',
+                    'fnmatch', 'ntpath', 'contextlib')
+
+
 def _from_code_under_test(depth=2):
+    """True when the innermost non-stdlib caller is pygyro / fullSimulation code (a call that goes
+    through pathlib, shutil or os.makedirs still counts as made by the code under test)."""
     try:
-        name = sys._getframe(depth).f_globals.get('__name__', '')
+        f = sys._getframe(depth)
     except ValueError:
         return False
-    return name.startswith('pygyro') or name == 'fullSimulation'
+    for _ in range(8):
+        if f is None:
+            return False
+        name = f.f_globals.get('__name__', '')
+        if name.startswith('pygyro') or name == 'fullSimulation':
+            return True
+        if name.split('.')[0] not in _STDLIB_WRAPPERS:
+            return False
+        f = f.f_back
+    return False
 
 
 # ---------------------------------------------------------------------------
@@ -50,6 +65,18 @@ def _sim_perf_counter():
         return _real['perf_counter']()
     w.preempt(r, 'clock', ())
     return w.clock(r)
+
+
+def _mk_clock(name, scale=1.0, integer=False):
+    def clock():
+        w, r = simworld.current()
+        if w is None or not _from_code_under_test():
+            return _real[name]()
+        w.preempt(r, 'clock', (name,))
+        v = w.clock(r) * scale
+        return int(v) if integer else v
+    clock.__name__ = name
+    return clock
 
 
 # ---------------------------------------------------------------------------
@@ -86,6 +113,14 @@ def _glob(pathname, *a, **k):
         w._shuffle(res)
         w.count_fault('glob-order')
     return res
+
+
+def _mk_fs(name, op=None):
+    def fs(path, *a, **k):
+        _fs_point(op or name, path)
+        return _real[name](path, *a, **k)
+    fs.__name__ = name
+    return fs
 
 
 def _open(file, *a, **k):
@@ -155,6 +190,7 @@ class _SharedFile:
         self.name = name
         self.members = members
         self.owners = {}        # dataset name -> array of (last writing rank + 1)
+        self.epochs = {}        # dataset name -> array of the writer's collective count at the time of the write
         self.conflict = None
         self.closed = False
 
@@ -185,6 +221,26 @@ class SimAttrs:
 
     def keys(self):
         return self._sds._real().attrs.keys()
+
+    def get(self, name, default=None):
+        return self._sds._real().attrs.get(name, default)
+
+    def items(self):
+        return self._sds._real().attrs.items()
+
+    def values(self):
+        return self._sds._real().attrs.values()
+
+    def __iter__(self):
+        return iter(self._sds._real().attrs)
+
+    def __len__(self):
+        return len(self._sds._real().attrs)
+
+    def __getattr__(self, name):
+        if name.startswith('__'):
+            raise AttributeError(name)
+        raise simworld.SimUnsupported('emulated h5py attributes have no %s' % name)
 
 
 class SimDataset:
@@ -226,22 +282,40 @@ class SimDataset:
         except Exception:   # noqa  (exotic selection: skip the conflict bookkeeping)
             prev_owner = None
         ds[key] = value
+        epoch = w.seqs.get((r, f._comm._cid), 0)          # collectives this rank has issued on the file's communicator
+        ep = sh.epochs.get(self._name)
+        if ep is None:
+            ep = sh.epochs[self._name] = np.zeros(ds.shape, dtype=np.int64)
         if prev_owner is not None:
             new = np.array(ds[key])
-            other = (prev_owner != 0) & (prev_owner != r + 1)
+            # concurrent = written by another rank with no collective on the file's communicator in between
+            other = (prev_owner != 0) & (prev_owner != r + 1) & (np.array(ep[key]) >= epoch)
             # parallel HDF5 leaves overlapping independent writes of *different* ranks with
             # different data undefined; a rank rewriting its own region is fine
             if other.any() and new.shape == old.shape and (new[other].tobytes() != old[other].tobytes()):
                 sh.conflict = dict(dataset=self._name, rank=r, other=int(prev_owner[other].flat[0]) - 1,
                                    region=repr(key))
             owner[key] = r + 1
+            ep[key] = epoch
 
     def __getitem__(self, key):
         return self._real()[key]
 
+    def __len__(self):
+        return len(self._real())
+
+    def __iter__(self):
+        return iter(self._real())
+
+    def write_direct(self, source, source_sel=None, dest_sel=None):
+        key = dest_sel if dest_sel is not None else Ellipsis
+        self[key] = source if source_sel is None else source[source_sel]
+
     def __getattr__(self, name):
         if name.startswith('__'):
             raise AttributeError(name)
+        if name in ('resize', 'make_scale', 'flush', 'refresh'):
+            raise simworld.SimUnsupported('emulated parallel dataset has no %s' % name)
         return getattr(self._real(), name)
 
 
@@ -284,8 +358,43 @@ class SimFile:
         self._coll('h5create', sig, None, complete)
         return SimDataset(self, name)
 
+    def require_dataset(self, name, shape=None, dtype=None, **kw):
+        if name in self._shared.real:
+            self._coll('h5require', (name, None if shape is None else tuple(int(x) for x in np.atleast_1d(shape)),
+                                      None if dtype is None else str(np.dtype(dtype))), None, lambda p: None)
+            return SimDataset(self, name)
+        return self.create_dataset(name, shape=shape, dtype=dtype, **kw)
+
+    def create_group(self, name):
+        sh = self._shared
+
+        def complete(p):
+            sh.real.create_group(name)
+            return None
+        self._coll('h5group', (name,), None, complete)
+        return SimGroup(self, name)
+
+    def require_group(self, name):
+        if name in self._shared.real:
+            self._coll('h5group', (name,), None, lambda p: None)
+            return SimGroup(self, name)
+        return self.create_group(name)
+
+    def get(self, name, default=None):
+        return self[name] if name in self._shared.real else default
+
+    def __iter__(self):
+        return iter(self._shared.real)
+
+    def __len__(self):
+        return len(self._shared.real)
+
     def __getitem__(self, name):
-        return SimDataset(self, name.lstrip('/') if name != '/' else name)
+        nm = name.lstrip('/') if name != '/' else name
+        import h5py
+        if nm in self._shared.real and isinstance(self._shared.real[nm], h5py.Group):
+            return SimGroup(self, nm)
+        return SimDataset(self, nm)
 
     def __contains__(self, name):
         return name in self._shared.real
@@ -341,6 +450,47 @@ class SimFile:
         raise simworld.SimUnsupported('emulated parallel h5py.File has no %s' % name)
 
 
+class SimGroup:
+    """A group of an emulated parallel file: names are forwarded with the group's prefix."""
+
+    def __init__(self, file, name):
+        self._file = file
+        self._prefix = name.strip('/')
+
+    def _p(self, name):
+        return self._prefix + '/' + name.lstrip('/')
+
+    def create_dataset(self, name, *a, **k):
+        return self._file.create_dataset(self._p(name), *a, **k)
+
+    def require_dataset(self, name, *a, **k):
+        return self._file.require_dataset(self._p(name), *a, **k)
+
+    def create_group(self, name):
+        return self._file.create_group(self._p(name))
+
+    def __getitem__(self, name):
+        return self._file[self._p(name)]
+
+    def __contains__(self, name):
+        return self._p(name) in self._file._shared.real
+
+    def keys(self):
+        return self._file._shared.real[self._prefix].keys()
+
+    def __iter__(self):
+        return iter(self._file._shared.real[self._prefix])
+
+    @property
+    def attrs(self):
+        return self._file._shared.real[self._prefix].attrs
+
+    def __getattr__(self, name):
+        if name.startswith('__'):
+            raise AttributeError(name)
+        raise simworld.SimUnsupported('emulated h5py group has no %s' % name)
+
+
 class _NoOpContext:
     def __enter__(self):
         return self
@@ -391,6 +541,17 @@ def install(repo=None):
                  empty=np.empty, empty_like=np.empty_like, h5File=h5py.File)
     _time_mod.time = _sim_time
     _time_mod.perf_counter = _sim_perf_counter
+    for nm, scale, integer in (('monotonic', 1.0, False), ('process_time', 1.0, False), ('time_ns', 1e9, True),
+                               ('monotonic_ns', 1e9, True), ('perf_counter_ns', 1e9, True)):
+        if hasattr(_time_mod, nm):
+            _real[nm] = getattr(_time_mod, nm)
+            setattr(_time_mod, nm, _mk_clock(nm, scale, integer))
+    for nm in ('makedirs', 'listdir', 'rename', 'replace', 'remove', 'unlink', 'rmdir'):
+        _real[nm] = getattr(os, nm)
+        setattr(os, nm, _mk_fs(nm))
+    for nm in ('isfile', 'getsize', 'getmtime'):
+        _real[nm] = getattr(os.path, nm)
+        setattr(os.path, nm, _mk_fs(nm))
     os.mkdir = _mkdir
     os.path.isdir = _isdir
     os.path.exists = _exists
@@ -410,7 +571,7 @@ def install(repo=None):
 
 
 def _real_listdir(path):
-    return os.listdir(path)
+    return _real.get('listdir', os.listdir)(path)
 
 
 def real_h5File(*a, **k):
